@@ -87,6 +87,24 @@ def gen_cases(rng, tier):
                         encs = [encs[n_enc[pat] % len(encs)]]
                     for e in encs:
                         add("box", "ax S:%s I:%d %s %s %s" % (e, n, P(a), P(b), P(c)), "a")
+    # ---- large extents, index math only (the length goes through binary32 above 2^24)
+    big = [2**24 - 1, 2**24, 2**24 + 1, 2**24 + 3, 2**25 + 7, 2**27 + 11, 2**31 - 200, 2**31 - 65, 2**31 - 64, 2**31 - 1]
+    for n in big:
+        near = [0, 1, 2, 5, n - 2, n - 1, n, n + 1, -1, -2, -n, -n + 1, -n - 1]
+        cands = [(None, None), (0, None), (1, None), (n - 1, None), (n, None), (None, n), (None, n - 1), (None, -1), (None, 5), (0, n), (1, n - 1), (-5, n + 3), (3, -2)]
+        cands += [(rng.choice(near), rng.choice(near)) for _ in range(12 if tier == "quick" else 60)]
+        for (a, b) in cands:
+            if (a is not None and abs(a) >= 2**31) or (b is not None and abs(b) >= 2**31): continue
+            for c in [None, "O", 1, 2, 3, -1, -2]:
+                if tier == "quick" and rng.random() < 0.5: continue
+                pat = pattern(a, b, c)
+                e = rng.choice(ENCS if pat in ("iii", "iiO") else ENCS[:3])
+                add("edge", "ax S:%s I:%d %s %s %s" % (e, n, P(a), P(b), P(c)), "a")
+    # ---- the public variadic view::slice with exactly one slice on a 1-d array
+    for n in (3, 5):
+        for (a, b) in [(0, n), (1, 3), (0, 2), (-2, n), (2, 2)]:
+            add("single", "v1 I:%d I:%d I:%d" % (n, a, b), "a")
+            add("single", "v1 I:%d I:%d I:%d I:1" % (n, a, b), "a")
     # ---- several axes
     def draw_part(t, n):
         if t == "e": return "S:e"
@@ -145,7 +163,7 @@ def distribution(streams):
     ops = Counter(); encs = Counter(); pats = Counter()
     for _, line, _ in streams:
         t = line.split(" ")
-        ops[t[0]] += 1; encs[t[1][2:]] += 1
+        ops[t[0]] += 1; encs[t[1][2:] if t[1].startswith("S:") else "-"] += 1
         if t[0] == "ax":
             pats["".join("N" if x == "N" else "O" if x == "O" else "i" for x in t[3:6])] += 1
     return {"ops": dict(ops), "encodings": dict(encs), "axis_patterns": dict(pats)}
@@ -163,6 +181,12 @@ def classify(line, impl, spec, model):
     what the pinned model says (impl == model != python); where the model says the C++ is undefined (float -> int
     conversion out of range) any output is that finding; everything else (impl != model) stays a violation."""
     norm = lambda s: " ".join(s.split())
+    t = line.split(" ")
+    if t[0] == "v1":
+        return "view-slice-single-range" if impl.startswith("trap") else None
+    if t[0] == "ax" and int(t[2][2:]) > 2 ** 24:
+        if model == "ub": return "slice-float-len-ub"
+        return "slice-float-len" if (norm(impl) == norm(model) and norm(model) != norm(spec)) else None
     if model == "trap out_of_range" and norm(impl) == model:
         return "ellipsis-trailing-empty:variadic"
     if model == "ub":
